@@ -1037,6 +1037,18 @@ MUTANTS = [
       "                processed=True",
       "                state=states.SUCCESS,\n"
       "                processed=True"),
+    m('C14-yaql-error-object-as-message', 'C14', ['R2'],
+      'mistral/expressions/yaql_expression.py',
+      "raise exc.YaqlGrammarException(str(getattr(e, 'message', e)))",
+      "raise exc.YaqlGrammarException(getattr(e, 'message', e))"),
+    m('C14-recursion-error-not-converted', 'C14', ['R3'],
+      'mistral/lang/parser.py',
+      "    except RecursionError:\n",
+      "    except MemoryError:\n"),
+    m('C14-inline-params-merged-into-expression-input', 'C14', ['R6'],
+      'mistral/lang/v2/tasks.py',
+      "        if params:\n            if not isinstance(self._input, dict):",
+      "        if params:\n            if self._input is None:"),
 ]
 
 
@@ -1427,4 +1439,20 @@ REFACTORS = [
       "            name={'in': t_specs_names},\n"
       "            state={'in': [states.SKIPPED, states.CANCELLED,\n"
       "                          states.ERROR, states.SUCCESS]},"),
+    r('C14-ref-inline-params-early-return', 'C14', 'mistral/lang/v2/tasks.py',
+      "        if params:\n            if not isinstance(self._input, dict):\n"
+      "                raise exc.InvalidModelException(\n"
+      "                    \"Task input given as an expression can't be "
+      "combined \"\n"
+      "                    \"with inline parameters [task_name=%s]\" % "
+      "self._name\n                )\n\n"
+      "            utils.merge_dicts(self._input, params)",
+      "        if not params:\n            return\n\n"
+      "        if not isinstance(self._input, dict):\n"
+      "            raise exc.InvalidModelException(\n"
+      "                \"Task input given as an expression can't be "
+      "combined \"\n"
+      "                \"with inline parameters [task_name=%s]\" % "
+      "self._name\n            )\n\n"
+      "        utils.merge_dicts(self._input, params)"),
 ]
